@@ -22,4 +22,5 @@ try:
         for l in lines: print("   ", l[:260])
 finally:
     sh(f"git -C /repo worktree remove --force {wt}")
-    sh("rm -rf /tmp/vh_shadow_*")
+    import hashlib
+    sh("rm -rf /tmp/vh_shadow_" + hashlib.md5(wt.encode()).hexdigest()[:8])
